@@ -74,7 +74,10 @@ func VxH_C19_fixed() {
 func VxH_C19_numeric() {
 	n := vx.Choose("n", 3) + 2
 	lim := n * n * n
-	v := vx.Int("v", -lim, lim)
+	if vx.Tier() > 0 {
+		lim *= n * n
+	}
+	v := vx.IntM("v", -lim, lim)
 	cs := vxStyle("numeric", n)
 	s := cs.RenderValue(v, "x")
 	vx.Reach("rendered")
@@ -103,7 +106,10 @@ func VxH_C19_numeric() {
 func VxH_C19_alphabetic() {
 	n := vx.Choose("n", 3) + 2
 	lim := n + n*n + n*n*n
-	v := vx.Int("v", 1, lim)
+	if vx.Tier() > 0 {
+		lim += n * n * n * n
+	}
+	v := vx.IntM("v", 1, lim)
 	cs := vxStyle("alphabetic", n)
 	s := cs.RenderValue(v, "x")
 	vx.Reach("rendered")
